@@ -92,6 +92,22 @@ def build(d):
             ind.fitness = F(tuple(xfloat(v) for v in vals))
             pop.append(ind)
         return pop
+    if d.get("parent"):
+        # HISTORY: the class under test derives from a class with OTHER weights that has been used (values assigned and
+        # read, both procedures run) before; nothing remembered per fitness type may be found again through inheritance
+        # (seeded change C04-r8m2 caches the float weights on the class)
+        par = d["parent"]
+        P = type("FitP", (base.Fitness,), {"weights": tuple(float(Fr(x)) for x in par["w"])})
+        pp = []
+        for vals in par["pop"]:
+            ind = Indiv(float(Fr(v)) for v in vals)
+            ind.fitness = P(tuple(float(Fr(v)) for v in vals))
+            ind.fitness.values
+            pp.append(ind)
+        emo.sortNondominated(pp, len(pp))
+        if len(par["w"]) >= 2:
+            emo.sortLogNondominated(pp, len(pp))
+        F = type("FitC", (P,), {"weights": tuple(float(x) for x in w)})
     if d.get("constrained"):
         CF = cfit_class(w)
         for j, vals in enumerate(d["pop"]):
@@ -526,8 +542,27 @@ def constrained_cases(tier, rng, mult):
                    constrained=["false", "none", "mixed"][it % 3])
 
 
+def family_cases(tier, rng, mult):
+    """HISTORY stream: the fitness class of the population derives from a class of another weight vector (other signs,
+    possibly another number of objectives) that was used first."""
+    count = int((40 if tier != "thorough" else 500) * mult)
+    for it in range(count):
+        m = rng.choice([2, 2, 3, 4])
+        mp = m if it % 3 else rng.choice([1, 2, 3])
+        n = rng.choice([2, 3, 4, 5, 6, 8])
+        pop = [[rng.randrange(4) for _ in range(m)] for _ in range(n)]
+        w = rand_weights(rng, m)
+        pw = rand_weights(rng, mp)
+        if mp == m and it % 2 == 0:          # the parent maximises where the child minimises
+            pw = [x[1:] if x.startswith("-") else "-" + x for x in w]
+        par = {"w": pw, "pop": [[str(rng.randrange(4)) for _ in range(mp)] for _ in range(rng.choice([2, 3, 4]))]}
+        yield dict(case(w, pop, sorted(set([0, 1, n // 2, n, n + 1])), "family/m=%d<-%d" % (m, mp)), parent=par)
+
+
 def generate(tier, rng, mult):
     for c in constrained_cases(tier, rng, mult):
+        yield c
+    for c in family_cases(tier, rng, mult):
         yield c
     # F37 stream first: it carries the clause "both procedures return the ranking" at extreme magnitudes
     for c in extreme_cases(tier, rng, mult):
